@@ -157,20 +157,20 @@ MANIFEST_TEXT = {
         note="Step-count bound instead of wall time; deadline counted from the library's first clock reading in the call.",
         technique=TECH,
     ),
-    "C05": dict(text="All 125 redirection combinations are enumerated every run; what the child holds at fds 0/1/2 is compared by identity of the open file description (same pipe, same description, shared offset) - something text-arrives-somewhere tests cannot see; invalid combinations must be refused without a fork; any close/dup2/F_SETFD on the parent's fds 0-2 (also in thread-local destructors at thread exit) is flagged.", design_ref="DESIGN.md §5 C05", note="One run in four spawns from 1-3 short-lived threads that exit afterwards; one run in six starts the parent with a subset of its descriptors 0-2 closed. One run in five gives the parent non-blocking standard streams; file status flags are kept per open file description, so a change made by the forked child shows as a change of the parent's own stream.", technique=TECH),
+    "C05": dict(text="All 125 redirection combinations are enumerated every run; what the child holds at fds 0/1/2 is compared by identity of the open file description (same pipe, same description, shared offset) - something text-arrives-somewhere tests cannot see; invalid combinations must be refused without a fork; any close/dup2/F_SETFD on the parent's fds 0-2 (also in thread-local destructors at thread exit) is flagged.", design_ref="DESIGN.md §5 C05", note="One run in four spawns from 1-3 short-lived threads that exit afterwards; one run in six starts the parent with a subset of its descriptors 0-2 closed. One run in five gives the parent non-blocking standard streams; file status flags are kept per open file description, so a change made by the forked child shows as a change of the parent's own stream. A standard descriptor the parent runs without must still be closed after a successful spawn.", technique=TECH),
     "C06": dict(text="The library's own marshalling runs in a really forked child; argv/envp/cwd/ids/pgid are read at the simulated exec boundary and compared with a model, including the credential rules that make the setuid/setgid order observable and NUL rejection.", design_ref="DESIGN.md §5 C06", note="Mostly a for-all-inputs property; the simulator contributes the observation point and credential semantics (stated in evidence). Windows format_env_block not covered. One run in five the parent's environment block holds a name twice and an entry without '=': with no environment specified the child must get that block entry by entry. NUL is placed in front, in the middle or as the last byte of an argument, an environment name or value, or the executable's name. One spawn in five starts a clone()/try_clone() of the configured command.", technique=TECH),
     "C07": dict(text="Every injection point (k-th descriptor allocation, k-th fcntl, fork, each child-side step, each exec candidate) is crossed with configurations and errno values; after each failed launch the process table, the parent's descriptor table and the returned errno are checked; Ok is accepted only if the simulated child has completed exec at the instant of return.", design_ref="DESIGN.md §5 C07", note="Enumeration is over ordinals up to fixed bounds (10 allocations, 12 fcntl calls, 6 child steps, 4 exec candidates) per configuration; configurations are sampled.", technique=TECH),
     "C08": dict(text="Descriptor tables of every child at exec are audited against the rule 'a library pipe end may only appear at the child's own fds 0/1/2', over histories with live siblings, over pipelines, and over spawns issued concurrently from several threads; end-of-file propagation is checked as a consequence.", design_ref="DESIGN.md §5 C08", note="One run in four spawns from 2-3 parent threads under the seeded scheduler (every interposed call is a switch point), which is what reaches the window between creating a pipe and forking; the consequences (end-of-file reaching either side whoever else is running) are checked directly as well. A third of the concurrent runs has one launch fail at exec; a forked child that sleeps between fork and exec keeps its copies of the parent's descriptors for that long and is not excused by the end-of-file judgement.", technique=TECH),
     "C09": dict(text="Random query/signal histories interleaved by the scheduler with the child's exit, foreign reaping and pid reuse; every reported status is compared with the kernel's truth at that instant and with earlier reports; the waitpid/kill log after the first report must be empty.", design_ref="DESIGN.md §5 C09", note="As C01. One run in six hands the Popen to another thread while the starting thread lives on (__WNOTHREAD modelled); one in six runs an executable whose file name holds blanks or parentheses, visible through the simulated /proc/<pid>/stat.", technique=TECH),
-    "C10": dict(text="Audit of the kill() calls actually issued, per API call, against what the Popen had observed at that time; bystander processes with recycled pids make a stray signal visible.", design_ref="DESIGN.md §5 C10", note="As C09. A signal sent after a query of the same Popen has reaped the child counts as sent after observation even when that query reported nothing; one run in five a fatal signal takes 20 us - 300 ms to take effect (kill_lag).", technique=TECH),
-    "C11": dict(text="Virtual clock with injected timer lateness and stalls: early/late return of wait_timeout is judged against the deadline plus exactly the injected delay; poll must not block; the back-off loop must sleep between two status checks.", design_ref="DESIGN.md §5 C11", note="Timeouts of weeks are explored only when the child exits early, otherwise bounded (see evidence assumptions). One history in ten against a child that ends by itself spells 'no limit' as Duration::MAX.", technique=TECH),
+    "C10": dict(text="Audit of the kill() calls actually issued, per API call, against what the Popen had observed at that time; bystander processes with recycled pids make a stray signal visible.", design_ref="DESIGN.md §5 C10", note="As C09. A signal sent after a query of the same Popen has reaped the child counts as sent after observation even when that query reported nothing; one run in five a fatal signal takes 20 us - 300 ms to take effect (kill_lag). One history in twelve runs with the parent's descriptor table full after the start (raw pidfd_open counts as an allocation; syscall() by number is interposed and refuses process-directed calls with ENOSYS).", technique=TECH),
+    "C11": dict(text="Virtual clock with injected timer lateness and stalls: early/late return of wait_timeout is judged against the deadline plus exactly the injected delay; poll must not block; the back-off loop must sleep between two status checks.", design_ref="DESIGN.md §5 C11", note="Timeouts of weeks are explored only when the child exits early, otherwise bounded (see evidence assumptions). One history in ten against a child that ends by itself spells 'no limit' as Duration::MAX. Durations just above 2^32 ms (where a 32-bit millisecond count starts over) against children that end by themselves.", technique=TECH),
     "C12": dict(text="Every owner kind x child behaviour x drop point; a drop that cannot finish is a detected global deadlock with a replayable schedule; the process table is audited after the handle is gone.", design_ref="DESIGN.md §5 C12", note="Plain Popen: caller-releasable ends are released first, as the property states. A third of the plain non-detached Popen runs use the handle (kill, terminate, poll, kill+wait, kill+poll) before dropping it, half of those with kill_lag: the child is doomed but not a zombie yet when kill() returns.", technique=TECH),
-    "C13": dict(text="Non-commutative tagged filters make order, skipping and duplication of stages visible; stage wiring is also checked by pipe identity; stderr sink compared as a multiset of lines; exit status and reaping at return.", design_ref="DESIGN.md §5 C13", note="As C01. The from-an-iterator shape uses a lazy iterator (lower size bound 0) half of the time; a panic while composing is a violation. Chains of three or more commands are configured (input, output, error sink) before they are extended half of the time.", technique=TECH),
+    "C13": dict(text="Non-commutative tagged filters make order, skipping and duplication of stages visible; stage wiring is also checked by pipe identity; stderr sink compared as a multiset of lines; exit status and reaping at return.", design_ref="DESIGN.md §5 C13", note="As C01. The from-an-iterator shape uses a lazy iterator (lower size bound 0) half of the time; a panic while composing is a violation. Chains of three or more commands are configured (input, output, error sink) before they are extended half of the time. Whenever input is configured (data of any length, pipe, null device) the first command must not be left on the parent's own stdin.", technique=TECH),
     "C14": dict(text="Every failing position x cause x terminator; the terminator must return the error without the simulated system deadlocking, no later fork, nothing left in the process or descriptor table.", design_ref="DESIGN.md §5 C14", note="As C07. A quarter of the runs has SIGTERM ignored in the parent (inherited by every command), one in eight has kill() refused once: cleaning up must not depend on signals.", technique=TECH),
     "C15": dict(text="Generated PATH shapes over a simulated file system with per-candidate exec errors; the image that ran and the candidates tried (recorded in the forked child) are compared with the model's first startable candidate in PATH order.", design_ref="DESIGN.md §5 C15", note="Schedule-free; the fault dimension is the errno sequence of the retry loop. For relative names with a slash a file of the same name may sit under the parent's cwd as well, or only there (realpath is interposed).", technique=TECH),
     "C16": dict(text="Model-based checking of builder call histories (plain record model) with the exec record as observation; claimed with the caveat that there is no schedule or fault dimension.", design_ref="DESIGN.md §5 C16", note="Pure history/model check riding on the simulator. A quarter of the histories has the program change its own environment between builder calls or between building and running; the copy the edits act on may be taken at the first edit or at run time - both are accepted - but what was set or removed on the builder must hold under either.", technique="model-based history checking on the simulator's exec-boundary observation (seeded call sequences; no schedule/fault dimension)"),
     "C17": dict(text="The worker's global allocator counts allocations in the really forked child between fork returning 0 and exec/_exit, across sizes that cross std's internal stack-buffer thresholds, on success and failure paths.", design_ref="DESIGN.md §5 C17", note="Counts allocations of the Rust global allocator; libc-internal malloc calls (none on these paths) would not be seen. PATH shapes include empty entries and PATHs of nothing but separators. A quarter of the runs request setuid, a quarter setgid (so a sixteenth both); setgroups is interposed.", technique=TECH),
-    "C18": dict(text="Exec records must show an empty mask and default SIGPIPE for every parent mask/disposition configuration; the consequence (producer dies on a closed pipe) is checked where it happens.", design_ref="DESIGN.md §5 C18", note="As C01.", technique=TECH),
+    "C18": dict(text="Exec records must show an empty mask and default SIGPIPE for every parent mask/disposition configuration; the consequence (producer dies on a closed pipe) is checked where it happens.", design_ref="DESIGN.md §5 C18", note="As C01. A quarter of the non-builder spawns request a process group of their own.", technique=TECH),
 }
 
 NOT_APPLICABLE = [
